@@ -215,6 +215,23 @@ def gen_family(out, wide, tier, rng):
                 if ch in a:
                     for n in BIG:
                         out.append(f"memchr {L(a)} {ch} {n}")
+    if wide:
+        # truncation aliases: wide characters that are equal modulo 2^8 / 2^16 must stay different (a comparison that
+        # goes through char / unsigned char / char16_t would identify them)
+        al3 = [97, 97 + 256, 97 + 65536]
+        Sa = strings(al3, 2)
+        for a in Sa:
+            for b in Sa:
+                A, B = L(a + [0]), L(b + [0])
+                for op in ("strcmp", "strspn", "strcspn", "strpbrk", "strstr"):
+                    out.append(f"{nm[op]} {A} {B}")
+                out.append(f"{nm['strncmp']} {A} {B} 3")
+                if len(a) == len(b):
+                    out.append(f"{nm['memcmp']} {L(a)} {L(b)} {len(a)}")
+            for ch in al3:
+                out.append(f"{nm['strchr']} {L(a + [0])} {ch}")
+                out.append(f"{nm['strrchr']} {L(a + [0])} {ch}")
+                out.append(f"{nm['memchr']} {L(a)} {ch} {len(a)}")
     # memmove between two different allocations, destination at the lower / at the higher address
     for ld in range(0, 5):
         for ls in range(0, 5):
@@ -238,7 +255,7 @@ def gen_family(out, wide, tier, rng):
     def rstr(maxlen, al):
         return [rng.choice(al) for _ in range(rng.randint(0, maxlen))]
 
-    wideal = [1, 97, 98, 99, -5, -2147483648, 2147483647, 128, 65536]
+    wideal = [1, 97, 98, 99, -5, -2147483648, 2147483647, 128, 65536, 97 + 256, 97 + 65536]
     nal = [1, 97, 98, 99, 127, 128, 200, 255]
     al = wideal if wide else nal
     for _ in range(R):
@@ -308,6 +325,7 @@ REGRESSION = [
     "strncmp 1 0 3 97 0 128 4294967296", "wcsncmp 2 98 0 1 0 4294967296",
     "strncat 3 0 201 202 2 97 0 18446744073709551615", "wcsncat 3 0 201 202 2 97 0 18446744073709551615",
     "wcsncpy_null 2", "strcpy_null 1", "iswspace 8232", "iswspace 12288", "strrchr_null 0", "wcsrchr_null 97",
+    "wmemchr 1 97 353 1", "wcsspn 2 97 0 2 65633 0", "wcspbrk 2 97 0 2 65633 0",
     "labs 2147483648", "memchr 1 0 0 9223372036854775808", "memmove2 3 201 202 203 2 97 98 2 0", "wmemmove2 3 201 202 203 2 97 98 2 1",
 ]
 
